@@ -227,3 +227,74 @@ def interval_count(db, f, pred, cache=None, stack=(), tracer=None, follow=None):
     r = (lo or 0, hi)
     cache[k] = r
     return r
+
+
+def linform(expr, atom_map=None):
+    """parse an access-path arithmetic expression into a linear form {atom: coeff, '': const}; None when not linear in + - and integer literals.
+    atom_map(atom) may canonicalise atoms"""
+    s = expr.strip()
+    pos = [0]
+
+    def peek():
+        while pos[0] < len(s) and s[pos[0]] == ' ':
+            pos[0] += 1
+        return s[pos[0]] if pos[0] < len(s) else ''
+
+    def add(a, b, k=1):
+        r = dict(a)
+        for x, c in b.items():
+            r[x] = r.get(x, 0) + k * c
+        return r
+
+    def atom():
+        c = peek()
+        if c == '(':
+            pos[0] += 1
+            v = expr_()
+            if peek() != ')':
+                raise ValueError(s)
+            pos[0] += 1
+            return v
+        m = re.match(r'\d+', s[pos[0]:])
+        if m:
+            pos[0] += len(m.group(0))
+            return {'': int(m.group(0))}
+        # an access path atom: up to a space followed by an operator, or a closing paren at depth 0
+        i = pos[0]; depth = 0
+        while i < len(s):
+            ch = s[i]
+            if ch == '(':
+                depth += 1
+            elif ch == ')':
+                if depth == 0:
+                    break
+                depth -= 1
+            elif ch == ' ' and depth == 0:
+                break
+            i += 1
+        a = s[pos[0]:i]
+        if not a:
+            raise ValueError(s)
+        pos[0] = i
+        if atom_map:
+            a = atom_map(a)
+        return {a: 1}
+
+    def expr_():
+        v = atom()
+        while True:
+            c = peek()
+            if c in ('+', '-') and pos[0] + 1 < len(s) and s[pos[0] + 1] == ' ':
+                pos[0] += 1
+                w = atom()
+                v = add(v, w, 1 if c == '+' else -1)
+            else:
+                break
+        return v
+    try:
+        v = expr_()
+        if peek() != '':
+            return None
+        return {k: c for k, c in v.items() if c != 0 or k == ''}
+    except (ValueError, IndexError):
+        return None
